@@ -2976,11 +2976,14 @@ impl CommandParser {
         let start = Self::extract_string(&frames[2])?;
         let end = Self::extract_string(&frames[3])?;
         
-        let count = if frames.len() == 6 && Self::extract_string(&frames[4])?.to_uppercase() == "COUNT" {
+        // Trailing arguments are COUNT <n> or nothing: anything else is a syntax error, not ignored
+        let count = if frames.len() == 4 {
+            None
+        } else if frames.len() == 6 && Self::extract_string(&frames[4])?.to_uppercase() == "COUNT" {
             Some(Self::extract_string(&frames[5])?.parse::<usize>()
                 .map_err(|_| FerrousError::Command(CommandError::InvalidIntegerValue))?)
         } else {
-            None
+            return Err(FerrousError::Command(CommandError::SyntaxError("XRANGE".into())));
         };
         
         Ok(StreamCommand::XRange { key, start, end, count })
@@ -2994,11 +2997,14 @@ impl CommandParser {
         let start = Self::extract_string(&frames[2])?;
         let end = Self::extract_string(&frames[3])?;
         
-        let count = if frames.len() == 6 && Self::extract_string(&frames[4])?.to_uppercase() == "COUNT" {
+        // Trailing arguments are COUNT <n> or nothing: anything else is a syntax error, not ignored
+        let count = if frames.len() == 4 {
+            None
+        } else if frames.len() == 6 && Self::extract_string(&frames[4])?.to_uppercase() == "COUNT" {
             Some(Self::extract_string(&frames[5])?.parse::<usize>()
                 .map_err(|_| FerrousError::Command(CommandError::InvalidIntegerValue))?)
         } else {
-            None
+            return Err(FerrousError::Command(CommandError::SyntaxError("XREVRANGE".into())));
         };
         
         Ok(StreamCommand::XRevRange { key, start, end, count })
